@@ -346,6 +346,17 @@ def check_legacy(repo: Repo, rep: Report) -> None:
             if st != "ok" or st2 != "ok" or a != b:
                 bad_l = f"board {board}: util.encode_array gives {a!r}, the Grid(OneOf(Spaces, HexInt)) combinator gives {b!r}"
                 break
+        # runs of empty cells around the longest run one character can carry (and twice that): the flush boundary
+        for run in (19, 20, 21, 22, 39, 40, 41, 42, 61):
+            for tail in ([5], []):
+                row = [3] + [0] * run + tail
+                n += 1
+                st, a = w.call("encode_array", [row], empty=0)
+                st2, b = w.call("serialize_problem", w.constants["SUDOKU_COMBINATOR"], [row], height=1, width=len(row))
+                if st != "ok" or st2 != "ok" or a != b:
+                    bad_l = bad_l or (f"a row with {run} consecutive empty cells{' at the end' if not tail else ''}: util.encode_array gives {a!r}, "
+                                      f"the Grid(OneOf(Spaces, HexInt)) combinator gives {b!r}")
+                    break
         for h, wd, rooms in room_cases():
             n += 1
             bid = [[-1] * wd for _ in range(h)]
